@@ -139,6 +139,8 @@ class AbsCal:
         self.max_year = max_year
         self.calc: SObj | None = None
         self.system: SObj | None = None
+        self.fixed_miy: int | None = None  # calendars known to have a constant number of months (ISO/Gregorian: 12)
+        self.min_dim: int = 1  # shortest month (ISO/Gregorian: 28)
 
     # ---- axiom instances
     def ax_year(self, y: Any) -> list[Any]:
@@ -148,6 +150,8 @@ class AbsCal:
             And(diy(c, y) >= 300, diy(c, y) <= 400),
             And(miy(c, y) >= 1, miy(c, y) <= 13),
         ]
+        if self.fixed_miy is not None:
+            out.append(miy(c, y) == self.fixed_miy)
         return out
 
     def ax_mono(self, a: Any, b: Any) -> Any:
@@ -161,7 +165,7 @@ class AbsCal:
         c = self.cid
         return Implies(
             And(m >= 1, m <= miy(c, y)),
-            And(dim(c, y, m) >= 1, dim(c, y, m) <= 31, dsm(c, y, m) >= 0, dsm(c, y, m) + dim(c, y, m) <= diy(c, y)),
+            And(dim(c, y, m) >= self.min_dim, dim(c, y, m) <= 31, dsm(c, y, m) >= 0, dsm(c, y, m) + dim(c, y, m) <= diy(c, y)),
         )
 
     def ax_disj(self, y: Any, m1: Any, m2: Any, y2: Any = None) -> Any:
